@@ -3,14 +3,14 @@
 HEAD and the checks of the current harness are run against it (tools/seedrun.py --detect-only; the owner check first,
 the others only when it misses).  The result is recorded in the seed's meta.json under `final_pass` without touching
 what was recorded when the seed was first confirmed.
-Usage: seedfinal.py [ID ...]      (default: all)"""
+Usage: seedfinal.py [ID | ID/X | X ...]      (default: all; e.g. `seedfinal.py E F` = third-round seeds only)"""
 import json, os, subprocess, sys, glob
 
 want = set(sys.argv[1:])
 rows = []
 for d in sorted(glob.glob("/verif/seeded/*/*/")):
     pid, x = d.rstrip("/").split("/")[-2:]
-    if want and pid not in want:
+    if want and pid not in want and f"{pid}/{x}" not in want and x not in want:
         continue
     r = subprocess.run(["python3", "/verif/tools/seedrun.py", pid, x, "--src", d.rstrip("/"), "--detect-only"], capture_output=True, text=True)
     try:
